@@ -868,14 +868,18 @@ func printTerm(sb *strings.Builder, t *Term, named map[int]string) {
 		sb.WriteByte(')')
 	default:
 		if t.op == "bvadd" && len(t.args) > 2 {
-			// left-nested binary additions
-			for i := 1; i < len(t.args); i++ {
-				sb.WriteString("(bvadd ")
-			}
-			printTerm(sb, t.args[0], named)
-			for _, a := range t.args[1:] {
-				sb.WriteByte(' ')
+			// right-nested binary additions: (a0 + (a1 + (a2 + ...))). With the oldest term (typically a
+			// slice offset) outermost, quantifier patterns of the form (off + j) match by E-matching.
+			for i, a := range t.args {
+				if i < len(t.args)-1 {
+					sb.WriteString("(bvadd ")
+				}
 				printTerm(sb, a, named)
+				if i < len(t.args)-1 {
+					sb.WriteByte(' ')
+				}
+			}
+			for i := 1; i < len(t.args); i++ {
 				sb.WriteByte(')')
 			}
 			return
